@@ -18,9 +18,9 @@ Inductive disposition := Oracle (o : string) | Reviewed (why : string).
 Definition site := (string * string * string * string)%type.
 
 Definition reviewed_set_sites : list (site * disposition) := [
-  (("cfg/analysis.py", "ForwardAnalysis.run", "pop", "queue"),
+  (("cfg/analysis.py", "ForwardAnalysis.run", "pop", "<local>"),
    Oracle "F: pop order of the forward work list = sched_run (ass_step ...) / schedule fs");
-  (("cfg/cfg.py", "BaseCFG.update_reachable", "pop", "queue"),
+  (("cfg/cfg.py", "BaseCFG.update_reachable", "pop", "<local>"),
    Reviewed "marks bb.reachable = True and queues the successors: the marked set is the least set containing the entry and closed under successors whatever the pop order; runs in the CFG builder, before the modelled passes");
   (("compiler/core.py", "partially_monomorphize_args", "for", "original_ty.bound_vars"),
    Reviewed "body is the indexed store mono_args[var.idx] = args[var.idx]: stores to distinct indices commute");
